@@ -345,7 +345,20 @@ func (fr *Frame) havocDesignator(s, pre *State, c *Contract, f *types.Func, d st
 			if strings.HasPrefix(k, "Q:") {
 				s.growGhost(k, v) // ghost sets only grow
 			} else {
+				before := s.heap(k, v)
 				s.havocHeap(k, v)
+				if k == "H:big" && d == "big" {
+					// the callee was not handed the caller's non-escaping local big.Int objects
+					top := fr
+					for top.parent != nil {
+						top = top.parent
+					}
+					for _, o := range top.nonEscapingBigLocals() {
+						if lv := s.vars[o]; lv != nil && lv.S != "" {
+							s.assume(fmt.Sprintf("(= (select %s %s) (select %s %s))", s.heap(k, v), lv.S, before, lv.S))
+						}
+					}
+				}
 			}
 		}
 		return nil
